@@ -17,7 +17,7 @@ PLAN = dict(
          "distinct = configuration | entry point / mutator. The hostile bytes sit in guard-page buffers (len == cap), three of "
          "four mutants against the upper page and one against the lower (thorough: every mutant in both placements).",
     jobs=both("c13.sweep", ["avx2", "purego"], shards=(8, 16), floor=2000)
-         + both("c13.built", ["avx2", "purego"], shards=(2, 4), floor=50)
+         + both("c13.built", ["avx2", "purego", "ia32"], shards=(2, 4), floor=50)
          + both("c13.modes", ["avx2", "avx", "sse", "noclmul", "noaes", "aesni1", "purego"], shards=(1, 2), floor=80)
          # every other SM4 mode implementation tier for the entry points that decrypt content with an SM4 mode
          + [J("c13.sweep.tiers", ["noclmul", "noaes", "avx", "sse"], "asm", shards=(2, 4), floor=500),
